@@ -149,8 +149,15 @@ def judge(chk, tag, V, obs, code, spec, fc_specs):
     if planes:
         Nn = np.array([p_[0] for p_ in planes]); dd = np.array([p_[1] for p_ in planes])
         G = Nn @ Nn.T
-        close = (G > 1 - 1e-14) & (np.abs(dd[:, None] - dd[None, :]) <= 1e-11 * R)
+        close = (G > 1 - 1e-12) & (np.abs(dd[:, None] - dd[None, :]) <= 1e-11 * R)
         np.fill_diagonal(close, False)
+        # (the cosine cannot tell a fold of 1e-7 rad from none: what decides is whether the vertices of one face lie ON the other's plane -
+        # to rounding, 1e-13 of the size - and a genuine fold of the generators lifts them off it by 1e-9 of the size or more)
+        groups = [g for g in obs["coplanar"] if float(np.linalg.norm(np.cross(Vv[Ss[g[0]]][1] - Vv[Ss[g[0]]][0], Vv[Ss[g[0]]][2] - Vv[Ss[g[0]]][0]))) > 0]
+        for i_, j_ in np.argwhere(close):
+            pj = Vv[np.unique(Ss[list(groups[j_])])]
+            if float(np.max(np.abs(pj @ Nn[i_] - dd[i_]))) > 1e-13 * R:
+                close[i_, j_] = close[j_, i_] = False
         if np.any(close):
             i_, j_ = np.argwhere(close)[0]
             fails.append(("facet-reported-as-several-faces", "faces %d and %d lie in the same plane (normals agree, offsets differ by %.3g)" % (int(i_), int(j_), float(abs(dd[i_] - dd[j_])))))
